@@ -33,6 +33,7 @@ type Drv struct {
 	WriterFailAt    int
 	WriterShort     bool
 	WriterOnce      bool
+	ErrFlavour      string // "" | canceled-wrapped | deadline-wrapped: what the injected reader/writer error wraps
 	CbFailAt        int
 	Canceller       bool
 	PreCancel       bool
@@ -65,6 +66,9 @@ func (d *Drv) String() string {
 	}
 	if d.CbFailAt > 0 {
 		s += fmt.Sprintf(" cbFailAt=%d", d.CbFailAt)
+	}
+	if d.ErrFlavour != "" {
+		s += " errorFlavour=" + d.ErrFlavour
 	}
 	if d.Canceller {
 		s += " canceller"
@@ -157,8 +161,10 @@ func (r *DrvRun) Body() {
 		mc.Go(func() { cancel() })
 	}
 	w := &mcWriter{failAt: d.WriterFailAt, short: d.WriterShort, noYield: d.NoYield, once: d.WriterOnce}
+	w.err = flavoured(d.ErrFlavour, errWriter)
 	r.W = w
 	rd := newReader(d.Doc)
+	rd.err = flavoured(d.ErrFlavour, errReader)
 	rd.failAfter = d.ReaderFailAfter
 	rd.cancelAt = d.ReaderCancelAt
 	rd.cancel = cancel
